@@ -1,7 +1,10 @@
-/* LD_PRELOAD shim used by the cli stream's profile "race" (tools/clistream.py): delays the N-th
- * write(2) (N = $CV_DELAY_NTH, default 1) to a file named best_seen.json by $CV_DELAY_MS
- * milliseconds (default 400).  It only makes one thread slow at a point where the scheduler may
- * preempt it anyway; nothing else about the process changes. */
+/* LD_PRELOAD shim used by the cli stream's profiles "race" and "reap" (tools/clistream.py).
+ * race: delays the N-th write(2) (N = $CV_DELAY_NTH, default 1; 0 = none) to a file named
+ *       best_seen.json by $CV_DELAY_MS milliseconds (default 400).
+ * reap: delays every waitpid(2) for one exact pid (pid > 0, no options) by $CV_DELAY_WAITPID_MS
+ *       milliseconds (default 0 = off); waits for a whole group (pid < 0) are left alone.
+ * It only makes one thread slow at a point where the scheduler may preempt it anyway; nothing
+ * else about the process changes. */
 #define _GNU_SOURCE
 #include <dlfcn.h>
 #include <unistd.h>
@@ -9,6 +12,8 @@
 #include <stdlib.h>
 #include <string.h>
 #include <stdatomic.h>
+#include <sys/types.h>
+#include <sys/wait.h>
 static atomic_int seen = 0;
 ssize_t write(int fd, const void *buf, size_t n) {
   static ssize_t (*real)(int, const void *, size_t) = 0;
@@ -25,4 +30,13 @@ ssize_t write(int fd, const void *buf, size_t n) {
     }
   }
   return real(fd, buf, n);
+}
+
+pid_t waitpid(pid_t pid, int *status, int options) {
+  static pid_t (*real)(pid_t, int *, int) = 0;
+  if (!real) real = (pid_t (*)(pid_t, int *, int))dlsym(RTLD_NEXT, "waitpid");
+  const char *ms = getenv("CV_DELAY_WAITPID_MS");
+  int delay = ms ? atoi(ms) : 0;
+  if (delay > 0 && pid > 0 && options == 0) usleep((useconds_t)delay * 1000);
+  return real(pid, status, options);
 }
